@@ -328,11 +328,14 @@ func enclosingFunc(path string, line int) string {
 }
 
 var (
-	reMissing   = regexp.MustCompile(`missing method (\w+)`)
-	reUndefined = regexp.MustCompile(`undefined: (\w+)`)
-	reRedecl    = regexp.MustCompile(`(\w+) redeclared in this block`)
-	reNotType   = regexp.MustCompile(`^(\w+) is not a type`)
-	reWrongType = regexp.MustCompile(`wrong type for method (\w+)`)
+	reMissing    = regexp.MustCompile(`missing method (\w+)`)
+	reUndefined  = regexp.MustCompile(`undefined: (\w+)`)
+	reRedecl     = regexp.MustCompile(`(\w+) redeclared in this block`)
+	reNotType    = regexp.MustCompile(`^(\w+) is not a type`)
+	reNoMember   = regexp.MustCompile(`has no field or method (\w+)`)
+	reInvalidArg = regexp.MustCompile(`invalid argument: (\w+) `)
+	reSelector   = regexp.MustCompile(`\be\.\w+(\.\w+)*`)
+	reWrongType  = regexp.MustCompile(`wrong type for method (\w+)`)
 )
 
 func (p *pkgState) classify(msgs []string) []ErrClass {
@@ -399,6 +402,17 @@ func (p *pkgState) classify(msgs []string) []ErrClass {
 			add(ErrClass{"unused_import", "", where})
 		case strings.Contains(msg, "already declared") || strings.Contains(msg, "duplicate method"):
 			add(ErrClass{"duplicate_declaration", "", where})
+		case reNoMember.MatchString(msg):
+			add(ErrClass{"undefined_member", reNoMember.FindStringSubmatch(msg)[1], where})
+		case strings.Contains(msg, "mismatched types") || strings.Contains(msg, "invalid argument"):
+			// which expression: the selector e.X, or the variable named in "invalid argument: x (...)"
+			d := ""
+			if m := reInvalidArg.FindStringSubmatch(msg); m != nil {
+				d = m[1]
+			} else if m := reSelector.FindStringSubmatch(msg); m != nil {
+				d = m[0]
+			}
+			add(ErrClass{"type_mismatch", d, where})
 		case strings.Contains(msg, "syntax error"):
 			add(ErrClass{"syntax_error", "", where})
 		case strings.Contains(msg, "too many errors"):
